@@ -13,7 +13,12 @@ What is under contract
      wiring obligations — the `rx` stream is the read side of the OUT endpoint's FIFO (payload/first/last/valid, and
      `rx.ready` advances that FIFO), the two IN endpoints answer endpoint numbers 3 and 4, the OUT endpoint number 4, the
      user's `tx` stream feeds the endpoint-4 IN endpoint (and nothing feeds the status endpoint), `connect` gates the
-     pull-up, and the control endpoint inside the device contains the three handlers of (A).
+     pull-up, and the control endpoint inside the device contains the three handlers of (A);
+     + on the same netlist, for the control endpoint the device REALLY builds: handler set (one standard, one ACM, one stall
+     handler + the multiplexer's fallback), every handler's inputs (setup packet, tokenizer, stage strobes, handshakes, rx)
+     and the selection of its outputs through the real multiplexer, the setup decoder's hookup, the commit strobes
+     (c10_unsupported_requests_stall.control_endpoint_obligations), `usb.connect`, and the instantiated endpoints'
+     addresses / max packet sizes equal the endpoint descriptors the device advertises.
 
 NOT covered (cannot be expressed as a contract on one unit; listed in the report): "enumerates under a standard host
 sequence" (a scenario), and the end-to-end "bytes in order" clauses, which are the subject of the stream-endpoint
@@ -140,6 +145,36 @@ def wiring(c):
         pref = "usb.USBControlEndpoint." + hmod + "."
         c.lemma("control_endpoint_has_" + hmod.replace(".", "_"), z3.BoolVal(any(p.startswith(pref) for p in ts.paths)),
                 clause="the control endpoint of the device contains the standard, ACM and stall handlers and the fallback")
+    # ---- the control endpoint the device REALLY composes (part (A) above is proved on a copy of that composition): its
+    #      handler set, and the hookup of every handler, of the multiplexer and of the setup decoder inside the device
+    from luna.gateware.usb.usb2.control import USBControlEndpoint
+    from luna.gateware.usb.request.standard import StandardRequestHandler
+    from .c10_unsupported_requests_stall import control_endpoint_obligations, hier
+    ce = ts.instance(USBControlEndpoint)
+    below_ce = lambda h: hier(ts, h)[:-1] == hier(ts, ce)
+    user_stall = [h for h in ts.instances(StallOnlyRequestHandler) if below_ce(h)]
+    acm, std = ts.instances(ACMRequestHandlers), ts.instances(StandardRequestHandler)
+    c.lemma("control_endpoint_handler_set", z3.BoolVal(len(acm) == 1 and len(std) == 1 and len(user_stall) == 1 and
+                                                       below_ce(acm[0]) and below_ce(std[0])),
+            clause="the device's control endpoint is composed of exactly one StandardRequestHandler, one ACMRequestHandlers and one "
+                   "StallOnlyRequestHandler (+ the multiplexer's own fallback), as part (A) assumes")
+    control_endpoint_obligations(c, ts, ce, 0, {"setup_decoder", "request_interface", "commit", "handlers"},
+                                 [("standard", std[0]), ("acm", acm[0]), ("stall_vendor", user_stall[0])])
+    # (instance parameters) the endpoints built are the ones the device's own configuration descriptor advertises
+    adv = []
+    for t, _, raw in d.create_descriptors():
+        if int(t) == 2:
+            b, k = bytes(raw), 0
+            while k < len(b):
+                if b[k + 1] == 5:
+                    adv.append((b[k + 2], b[k + 4] | (b[k + 5] << 8)))
+                k += b[k]
+    built = [((0x80 if isinstance(o, USBStreamInEndpoint) else 0) | o._endpoint_number, getattr(o, "_max_packet_size", None)) for o in eps]
+    c.lemma("endpoints_match_the_advertised_descriptors", z3.BoolVal(sorted(adv) == sorted(built)),
+            clause=f"(structural) endpoint addresses and max packet sizes of the instantiated endpoints {sorted(built)} equal the "
+                   f"endpoint descriptors the device hands to the host {sorted(adv)}")
+    c.lemma("device_connect_is_usb_connect", ts.sig("usb.connect") == I["connect"],
+            clause="`connect` is passed to the USB device")
     c.inv("trivial", z3.BoolVal(True))
 
 
